@@ -934,9 +934,9 @@ def run(ctx):
             # two totals do not fit 64-bit integers
             mx = int(10 ** rng.uniform(9, 12))
             ctx.tag("binary:billions-of-pairs")
-        t = rng.integers(1, mx + 1, size=4)
+        t = [int(v_) for v_ in rng.integers(1, mx + 1, size=4)]
         if it % 5 == 0:
-            t[3] = t[1] * t[2] // max(1, t[0]) or 1
+            t[3] = min(t[1] * t[2] // max(1, t[0]) or 1, 10 ** 15)
         tb = [[int(t[0]), int(t[1])], [int(t[2]), int(t[3])]]
         if it % 7 == 0:
             tb = [[int(t[0]), int(t[0])], [int(t[2]), int(t[2])]]   # theta == 1
